@@ -58,6 +58,6 @@ theorem swallowed_cast_counterexample (ext : Ext) :
   refine ⟨?_, ?_, ?_⟩
   · simp [newValue, hcast]
   · simp [exportVal, hstr, exportFail]
-  · simp [importCell, importFrom, hcast, importFail]
+  · simp [importCell, importByFormat, importFrom, hcast, importFail]
 
 end Jl.C05
